@@ -229,14 +229,105 @@ func sameDump(a, b crashDump) bool {
 	return true
 }
 
+// c04Workload composes seeded blocks so that every workload contains autocommit writes of all
+// kinds, multi-key commits (successful, conflicting), rollbacks, deletes, overwrites inside a
+// transaction, collector passes and drains.
 func c04Workload(seed int64, idx int, tier string) []seqrun.Step {
 	rng := seqrun.Rng(seed, "C04", idx)
-	p := seqrun.Profile{
-		Steps: tierN(tier, 34, 44), Keys: txKeys[:3], Lens: []int{10, 10, 40000, 70000}, MaxOpen: 2, TxBias: 55, Levels: []int{1, 2},
-		TagPrefix: fmt.Sprintf("w%d-", idx),
-		W:         map[string]int{"begin": 10, "set": 26, "delete": 7, "create": 4, "setreader": 4, "commit": 12, "rollback": 3, "collect": 5, "drain": 5},
+	var steps []seqrun.Step
+	nv, ntx := 0, 0
+	keys := txKeys[:3]
+	val := func() (string, int) {
+		nv++
+		return fmt.Sprintf("w%d-v%d", idx, nv), []int{10, 10, 10, 40000, 70000}[rng.Intn(5)]
 	}
-	return seqrun.Generate(rng, p)
+	set := func(actor int, k string) {
+		t, l := val()
+		op := "set"
+		if actor < 0 {
+			op = []string{"set", "set", "setreader", "create"}[rng.Intn(4)]
+		}
+		steps = append(steps, seqrun.Step{Op: op, Actor: actor, Key: k, Tag: t, Len: l})
+	}
+	subset := func(min int) []string {
+		p := rng.Perm(len(keys))
+		n := min + rng.Intn(len(keys)-min+1)
+		var out []string
+		for _, i := range p[:n] {
+			out = append(out, keys[i])
+		}
+		return out
+	}
+	blocks := []func(){
+		func() { // autocommit writes
+			for _, k := range subset(1) {
+				set(-1, k)
+			}
+		},
+		func() { // multi-key commit (RC or RR), no conflict
+			id := ntx
+			ntx++
+			steps = append(steps, seqrun.Step{Op: "begin", Actor: id, Level: 1 + rng.Intn(2)})
+			for _, k := range subset(2) {
+				set(id, k)
+				if rng.Intn(3) == 0 {
+					set(id, k) // superseded inside the transaction
+				}
+			}
+			if rng.Intn(3) == 0 {
+				steps = append(steps, seqrun.Step{Op: "delete", Actor: id, Key: keys[rng.Intn(len(keys))]})
+			}
+			steps = append(steps, seqrun.Step{Op: "commit", Actor: id})
+		},
+		func() { // snapshot transaction that loses a conflict
+			id := ntx
+			ntx++
+			steps = append(steps, seqrun.Step{Op: "begin", Actor: id, Level: 2 + rng.Intn(2)})
+			ks := subset(2)
+			for _, k := range ks {
+				set(id, k)
+			}
+			set(-1, ks[0])
+			steps = append(steps, seqrun.Step{Op: "commit", Actor: id})
+		},
+		func() { // ReadCommitted/ReadUncommitted commit over a newer autocommit write: the commit wins
+			id := ntx
+			ntx++
+			steps = append(steps, seqrun.Step{Op: "begin", Actor: id, Level: rng.Intn(2)})
+			ks := subset(1)
+			for _, k := range ks {
+				set(id, k)
+			}
+			set(-1, ks[0])
+			steps = append(steps, seqrun.Step{Op: "commit", Actor: id})
+		},
+		func() { // rollback
+			id := ntx
+			ntx++
+			steps = append(steps, seqrun.Step{Op: "begin", Actor: id, Level: rng.Intn(4)})
+			for _, k := range subset(1) {
+				set(id, k)
+			}
+			steps = append(steps, seqrun.Step{Op: "rollback", Actor: id})
+		},
+		func() { steps = append(steps, seqrun.Step{Op: "delete", Actor: -1, Key: keys[rng.Intn(len(keys))]}) },
+		func() {
+			steps = append(steps, seqrun.Step{Op: "collect", Actor: -1}, seqrun.Step{Op: "drain", Actor: -1})
+		},
+		func() { // a transaction left open across other work (its writes must never surface)
+			id := ntx
+			ntx++
+			steps = append(steps, seqrun.Step{Op: "begin", Actor: id, Level: 1})
+			set(id, keys[rng.Intn(len(keys))])
+		},
+	}
+	rounds := tierN(tier, 2, 3)
+	for r := 0; r < rounds; r++ {
+		for _, bi := range rng.Perm(len(blocks)) {
+			blocks[bi]()
+		}
+	}
+	return steps
 }
 
 // every workload is split over c04Shards cases (child processes) that each take a share of its crash points
@@ -348,6 +439,10 @@ func c04Case(tier string, seed int64, caseIdx int, scratch string) rt.CaseResult
 		if vkilled || vo.Err != "" || len(vo.Dumps) < 2 {
 			if strings.Contains(vlog, "panic:") || strings.Contains(vlog, "fatal error:") || vo.Err != "" {
 				replay["verify_log"] = vlog
+				if strings.Contains(vlog, "while opening memtables") && strings.Contains(vlog, "Create a new file") {
+					c.Violate("recovery-failed badger-zero-length-memtable-file", "the database does not open: a process kill hit Badger between Truncate(0) and Remove of a flushed memtable file (ristretto z.MmapFile.Delete); the zero-length NNNNN.mem makes badger.Open fail with 'while opening memtables ... Create a new file', and fs_db opens Badger with lo.Must", replay)
+					continue
+				}
 				c.Violate("recovery-failed site="+site, fmt.Sprintf("after a crash at %s the database does not open/recover: %s %s", name, vo.Err, firstWords(vlog, 30)), replay)
 			} else {
 				c.Inconclusive = append(c.Inconclusive, "verify child failed: "+vlog)
